@@ -244,6 +244,15 @@ pub fn plain_contract_name(instance: u64) -> String {
     }
 }
 
+/// The record in which the address generator `SequenceNames` keeps its counter (it lives in chain storage, under
+/// the custom module's namespace, and is rolled back with everything else).
+pub const SEQUENCE_TAG: u32 = 999_999_999;
+
+/// What `SequenceNames` hands out as its n-th address.
+pub fn sequence_contract_name(n: u64) -> String {
+    format!("seq-{}", n)
+}
+
 pub fn classic_address(api: ApiKind, code_id: u64, instance: u64) -> String {
     if api == ApiKind::Plain {
         return plain_contract_name(instance);
@@ -484,6 +493,14 @@ impl ChainM {
                     None => return Err(Why::NoSuchCode),
                 };
                 let addr = match salt {
+                    // a stateful generator (plain-address chains with the alternative generator): every call hands out
+                    // the next name of a sequence kept in chain storage — it is asked once per instantiation
+                    None if self.api == ApiKind::Plain && self.one_address_per_code => {
+                        let key = custom_record_key(SEQUENCE_TAG);
+                        let n: u64 = self.st.custom.get(&key).and_then(|v| String::from_utf8_lossy(v).trim_start_matches("from:seq").parse().ok()).unwrap_or(0);
+                        self.st.custom.insert(key, format!("from:seq{}", n + 1).into_bytes());
+                        sequence_contract_name(n)
+                    }
                     None => classic_address(self.api, *code_id, if self.one_address_per_code { 0 } else { self.st.contracts.len() as u64 }),
                     Some(s) => match salted_address(self.api, &code.checksum, sender, s.as_slice()) {
                         Some(a) => a,
